@@ -21,6 +21,9 @@ type authPkt struct {
 	Raw   model.B               `json:"raw,omitempty"`
 	// PauseMs: real time that passes before the packet is sent (a user who takes his time at a prompt)
 	PauseMs int `json:"pause_ms,omitempty"`
+	// WithNext: this packet and the script's next one reach the server in one write (a client that does
+	// not wait for the prompt); the sequence numbers are the ones a waiting client would use
+	WithNext bool `json:"with_next,omitempty"`
 }
 
 func (p authPkt) body() []byte {
@@ -40,6 +43,8 @@ type authScript struct {
 	// After > 0: this script reuses the session id of script After-1 once that session is over on the
 	// server (final status), continuing its sequence numbers: a finished session must leave nothing behind
 	After int `json:"after,omitempty"`
+	// HFlags: flag octet of every header of the script (0x04 = single-connect)
+	HFlags byte `json:"hflags,omitempty"`
 }
 
 const (
@@ -398,7 +403,9 @@ type authEvent struct {
 	Msg     string `json:"msg"`
 	Data    string `json:"data"`
 	RawHdr  string `json:"raw_hdr"`
-	Closed  bool   `json:"closed"`
+	// FirstStatus: when two packets went out in one write, the status of the answer to the first
+	FirstStatus byte `json:"first_status,omitempty"`
+	Closed      bool `json:"closed"`
 }
 
 // authRunner sends scripts' packets in a given order on one connection with correct sequence numbers.
@@ -434,14 +441,48 @@ func (r *authRunner) step(i int) (ev authEvent, ok bool, err error) {
 	if p.PauseMs > 0 {
 		time.Sleep(time.Duration(p.PauseMs) * time.Millisecond)
 	}
-	h := model.Header{Version: 0xc0 | p.Minor, Type: model.TypeAuthen, Seq: byte(r.seq[i]), Session: r.scripts[i].Session}
-	pkts, rest, closed, err := r.d.send(model.Frame(r.key, h, p.body()))
+	h := model.Header{Version: 0xc0 | p.Minor, Type: model.TypeAuthen, Seq: byte(r.seq[i]), Flags: r.scripts[i].HFlags, Session: r.scripts[i].Session}
+	wire := model.Frame(r.key, h, p.body())
+	two := p.WithNext && r.next[i]+1 < len(r.scripts[i].Pkts) && r.seq[i]+2 <= 255
+	if two {
+		q := r.scripts[i].Pkts[r.next[i]+1]
+		h2 := h
+		h2.Version, h2.Seq = 0xc0|q.Minor, byte(r.seq[i]+2)
+		wire = append(append([]byte{}, wire...), model.Frame(r.key, h2, q.body())...)
+	}
+	pkts, rest, closed, err := r.d.send(wire)
 	if err != nil {
 		return ev, false, err
+	}
+	want := 1
+	if two {
+		want = 2
+	}
+	for tries := 0; len(pkts) < want && !closed && len(rest) == 0 && r.seq[i] < 255 && tries < 2; tries++ {
+		// nothing (or not everything) was written before the server went back to reading: give a reply
+		// that is sent from another goroutine a moment to arrive, so that the exchange can go on
+		more, mrest, mclosed := r.d.late(150 * time.Millisecond)
+		pkts, rest, closed = append(pkts, more...), mrest, mclosed
+		if len(more) == 0 {
+			break
+		}
 	}
 	ev = authEvent{Script: i, Pkt: r.next[i], Seq: r.seq[i], Replies: len(pkts), Closed: closed}
 	if len(rest) != 0 {
 		ev.Replies = -1
+	}
+	if two {
+		// the event describes the answer to the second packet; the answer to the first is kept aside
+		if len(pkts) >= 1 {
+			if rep, okd, _ := model.DecodeAuthenReply(pkts[0].Clear(r.key)); okd {
+				ev.FirstStatus = rep.Status
+			}
+			pkts = pkts[1:]
+		}
+		ev.Replies = len(pkts)
+		r.next[i]++
+		r.seq[i] += 2
+		ev.Pkt, ev.Seq = r.next[i], r.seq[i]
 	}
 	if len(pkts) >= 1 {
 		rp := pkts[0]
